@@ -84,9 +84,9 @@ func (r *Rng) Intn(n int) int {
 
 // Range returns a value in [lo, hi].
 func (r *Rng) Range(lo, hi int) int { return lo + r.Intn(hi-lo+1) }
-func (r *Rng) Bool() bool          { return r.U64()&1 == 1 }
-func (r *Rng) Chance(pct int) bool { return r.Intn(100) < pct }
-func (r *Rng) Float() float64      { return float64(r.U64()>>11) / float64(1<<53) }
+func (r *Rng) Bool() bool           { return r.U64()&1 == 1 }
+func (r *Rng) Chance(pct int) bool  { return r.Intn(100) < pct }
+func (r *Rng) Float() float64       { return float64(r.U64()>>11) / float64(1<<53) }
 func (r *Rng) Pick(xs []string) string {
 	return xs[r.Intn(len(xs))]
 }
@@ -222,14 +222,14 @@ type WorkerResult struct {
 }
 
 type workerOpts struct {
-	prop   string
-	tier   string
-	seed   int64
-	shard  int
-	shards int
-	from   int // first case index to consider (inclusive)
-	only   int // run just this case (-1 = all of the shard)
-	out    string
+	prop    string
+	tier    string
+	seed    int64
+	shard   int
+	shards  int
+	from    int // first case index to consider (inclusive)
+	only    int // run just this case (-1 = all of the shard)
+	out     string
 	verbose bool
 }
 
